@@ -105,56 +105,82 @@ func (c *Ctx) Reject(fnName string, sel Sel, conj ...string) bool {
 	if !good {
 		return false
 	}
-	targets := instrSet(ins)
-	var why string
-	found := false
-	for _, b := range fn.Blocks {
-		fs := FactsAt(b)
-		all := true
-		var ifs []*ssa.If
-		for _, a := range as {
-			hit := false
-			for _, f := range fs {
-				if SameAtom(f.Atom, a) {
-					hit = true
-					ifs = append(ifs, f.If)
+	// candidate rejecting edges: an If edge on which all atoms of conj hold
+	type cand struct {
+		succ  *ssa.BasicBlock
+		outer *ssa.If
+	}
+	var cands []cand
+	for _, blk := range fn.Blocks {
+		if len(blk.Instrs) == 0 {
+			continue
+		}
+		ifi, ok := blk.Instrs[len(blk.Instrs)-1].(*ssa.If)
+		if !ok {
+			continue
+		}
+		base := FactsAt(blk)
+		ca := CondAtom(ifi.Cond)
+		for k, edgeAtom := range []Atom{ca, ca.Negate()} {
+			fs := append(append([]Fact{}, base...), Fact{edgeAtom, ifi})
+			all := true
+			var outer *ssa.If
+			for _, a := range as {
+				hit := false
+				for _, f := range fs {
+					if SameAtom(f.Atom, a) {
+						hit = true
+						if outer == nil || f.If.Block().Dominates(outer.Block()) {
+							outer = f.If
+						}
+						break
+					}
+				}
+				if !hit {
+					all = false
 					break
 				}
 			}
-			if !hit {
-				all = false
-				break
-			}
-		}
-		if !all {
-			continue
-		}
-		found = true
-		if in, reach := canReach(ipos{b, 0}, true, targets, nil); reach {
-			why = fmt.Sprintf("the branch where %s holds still reaches `%s` at %s", strings.Join(conj, " && "), DescribeInstr(in), c.P.Pos(InstrPos(in)))
-			continue
-		}
-		// the deciding tests must come before every site
-		domAll := true
-		for _, in := range ins {
-			for _, ifi := range ifs {
-				if !ifi.Block().Dominates(in.Block()) {
-					domAll = false
-					why = fmt.Sprintf("site `%s` at %s is reachable without passing the test", DescribeInstr(in), c.P.Pos(InstrPos(in)))
+			// the edge's own condition must be one of the conj atoms
+			own := false
+			for _, a := range as {
+				if SameAtom(edgeAtom, a) {
+					own = true
 				}
 			}
+			if all && own {
+				cands = append(cands, cand{blk.Succs[k], outer})
+			}
 		}
-		if !domAll {
-			continue
+	}
+	if len(cands) == 0 {
+		c.Fail(rule, construct, fn.Pos(), "no branch in this function establishes exactly {"+atomList(as)+"}; branch conditions present: "+c.condSummary(fn))
+		return false
+	}
+	for _, in := range ins {
+		ok := false
+		why := ""
+		for _, cd := range cands {
+			if _, reach := canReach(ipos{cd.succ, 0}, true, map[ssa.Instruction]bool{in: true}, nil); reach {
+				why = fmt.Sprintf("the branch where %s holds still reaches `%s`", strings.Join(conj, " && "), DescribeInstr(in))
+				continue
+			}
+			if !cd.outer.Block().Dominates(in.Block()) {
+				if why == "" {
+					why = fmt.Sprintf("site `%s` is reachable without passing the test", DescribeInstr(in))
+				}
+				continue
+			}
+			ok = true
+			break
 		}
-		c.OK(rule, construct, fmt.Sprintf("rejecting block at %s; %d site(s)", c.P.Pos(InstrPos(firstInstr(b))), len(ins)))
-		return true
+		if !ok {
+			c.Fail(rule, construct, InstrPos(in), why)
+			return false
+		}
 	}
-	if !found {
-		why = "no branch in this function establishes exactly {" + atomList(as) + "}; branch conditions present: " + c.condSummary(fn)
-	}
-	c.Fail(rule, construct, fn.Pos(), why)
-	return false
+	c.OK(rule, construct, fmt.Sprintf("%d rejecting edge(s); %d site(s)", len(cands), len(ins)))
+	return true
 }
 
 func firstInstr(b *ssa.BasicBlock) ssa.Instruction {
@@ -378,6 +404,9 @@ func DumpFacts(p *Prog, fn *ssa.Function) string {
 		fmt.Fprintf(&sb, "== %s\n", FnName(f))
 		for _, b := range f.Blocks {
 			fs := factStrings(FactsAt(b))
+			if len(fs) > 400 {
+				fs = fs[:400] + "…"
+			}
 			fmt.Fprintf(&sb, " block %d  facts{%s}\n", b.Index, fs)
 			for _, in := range b.Instrs {
 				switch x := in.(type) {
